@@ -603,6 +603,124 @@ static rc::Gen<std::vector<LD>> gen_angle_pair(int nt, int n, bool directions) {
                       });
 }
 
+// ================================================================================================ C18: named physical definitions
+// A fixed table written from textbooks: relation name -> reference formula in __float128 with the magnitude that sets the allowed rounding
+// (products, quotients, roots: |exact|; sums: the sum of |terms|; formulas with an inner difference: amplified accordingly).
+struct Def { const char* name; std::function<void(const Q* const* a, Q* out, Q* mag)> ref; };
+static void scalar_def(Q v, Q* out, Q* mag) { out[0] = v; mag[0] = fabsq(v); }
+static std::vector<Def> make_defs() {
+  std::vector<Def> d;
+  auto S = [&](const char* n, std::function<Q(const Q* const*)> f) { d.push_back({n, [f](const Q* const* a, Q* out, Q* mag) { scalar_def(f(a), out, mag); }}); };
+  auto Sum = [&](const char* n, int sign) { d.push_back({n, [sign](const Q* const* a, Q* out, Q* mag) { out[0] = a[0][0] + sign * a[1][0]; mag[0] = fabsq(a[0][0]) + fabsq(a[1][0]); }}); };
+#define A(i) (a[i][0])
+  S("DynamicPressure(MassDensity,Speed)", [](const Q* const* a) { return A(0) * A(1) * A(1) / 2; });
+  S("Speed(DynamicPressure,MassDensity)", [](const Q* const* a) { return sqrtq(2 * A(0) / A(1)); });
+  S("MassDensity(DynamicPressure,Speed)", [](const Q* const* a) { return 2 * A(0) / (A(1) * A(1)); });
+  S("DynamicKinematicPressure(Speed)", [](const Q* const* a) { return A(0) * A(0) / 2; });
+  S("Speed(DynamicKinematicPressure)", [](const Q* const* a) { return sqrtq(2 * A(0)); });
+  S("DynamicKinematicPressure(DynamicPressure,MassDensity)", [](const Q* const* a) { return A(0) / A(1); });
+  S("DynamicPressure(MassDensity,DynamicKinematicPressure)", [](const Q* const* a) { return A(0) * A(1); });
+  Sum("TotalPressure(StaticPressure,DynamicPressure)", +1); Sum("StaticPressure(TotalPressure,DynamicPressure)", -1); Sum("DynamicPressure(TotalPressure,StaticPressure)", -1);
+  Sum("StaticPressure + DynamicPressure", +1); Sum("DynamicPressure + StaticPressure", +1); Sum("TotalPressure - DynamicPressure", -1); Sum("TotalPressure - StaticPressure", -1);
+  Sum("TotalKinematicPressure(StaticKinematicPressure,DynamicKinematicPressure)", +1); Sum("StaticKinematicPressure(TotalKinematicPressure,DynamicKinematicPressure)", -1);
+  Sum("DynamicKinematicPressure(TotalKinematicPressure,StaticKinematicPressure)", -1);
+  S("TotalKinematicPressure(TotalPressure,MassDensity)", [](const Q* const* a) { return A(0) / A(1); }); S("TotalPressure(MassDensity,TotalKinematicPressure)", [](const Q* const* a) { return A(0) * A(1); });
+  S("StaticKinematicPressure(StaticPressure,MassDensity)", [](const Q* const* a) { return A(0) / A(1); }); S("StaticPressure(MassDensity,StaticKinematicPressure)", [](const Q* const* a) { return A(0) * A(1); });
+  S("SoundSpeed(IsentropicBulkModulus,MassDensity)", [](const Q* const* a) { return sqrtq(A(0) / A(1)); });
+  S("SoundSpeed(HeatCapacityRatio,StaticPressure,MassDensity)", [](const Q* const* a) { return sqrtq(A(0) * A(1) / A(2)); });
+  S("SoundSpeed(HeatCapacityRatio,SpecificGasConstant,Temperature)", [](const Q* const* a) { return sqrtq(A(0) * A(1) * A(2)); });
+  S("MassDensity(IsentropicBulkModulus,SoundSpeed)", [](const Q* const* a) { return A(0) / (A(1) * A(1)); }); S("IsentropicBulkModulus(MassDensity,SoundSpeed)", [](const Q* const* a) { return A(0) * A(1) * A(1); });
+  S("MachNumber(Speed,SoundSpeed)", [](const Q* const* a) { return A(0) / A(1); }); S("Speed(SoundSpeed,MachNumber)", [](const Q* const* a) { return A(0) * A(1); }); S("SoundSpeed(Speed,MachNumber)", [](const Q* const* a) { return A(0) / A(1); });
+  S("Speed / SoundSpeed", [](const Q* const* a) { return A(0) / A(1); });
+  S("ReynoldsNumber(MassDensity,Speed,Length,DynamicViscosity)", [](const Q* const* a) { return A(0) * A(1) * A(2) / A(3); });
+  S("ReynoldsNumber(Speed,Length,KinematicViscosity)", [](const Q* const* a) { return A(0) * A(1) / A(2); });
+  S("MassDensity(ReynoldsNumber,DynamicViscosity,Speed,Length)", [](const Q* const* a) { return A(0) * A(1) / (A(2) * A(3)); });
+  S("Speed(ReynoldsNumber,DynamicViscosity,MassDensity,Length)", [](const Q* const* a) { return A(0) * A(1) / (A(2) * A(3)); });
+  S("Length(ReynoldsNumber,DynamicViscosity,MassDensity,Speed)", [](const Q* const* a) { return A(0) * A(1) / (A(2) * A(3)); });
+  S("DynamicViscosity(MassDensity,Speed,Length,ReynoldsNumber)", [](const Q* const* a) { return A(0) * A(1) * A(2) / A(3); });
+  S("KinematicViscosity(Speed,Length,ReynoldsNumber)", [](const Q* const* a) { return A(0) * A(1) / A(2); });
+  S("Speed(ReynoldsNumber,KinematicViscosity,Length)", [](const Q* const* a) { return A(0) * A(1) / A(2); });
+  S("Length(ReynoldsNumber,KinematicViscosity,Speed)", [](const Q* const* a) { return A(0) * A(1) / A(2); });
+  S("PrandtlNumber(SpecificIsobaricHeatCapacity,DynamicViscosity,ScalarThermalConductivity)", [](const Q* const* a) { return A(0) * A(1) / A(2); });
+  S("PrandtlNumber(KinematicViscosity,ThermalDiffusivity)", [](const Q* const* a) { return A(0) / A(1); });
+  S("KinematicViscosity(PrandtlNumber,ThermalDiffusivity)", [](const Q* const* a) { return A(0) * A(1); }); S("ThermalDiffusivity(KinematicViscosity,PrandtlNumber)", [](const Q* const* a) { return A(0) / A(1); });
+  S("DynamicViscosity(PrandtlNumber,ScalarThermalConductivity,SpecificIsobaricHeatCapacity)", [](const Q* const* a) { return A(0) * A(1) / A(2); });
+  S("ScalarThermalConductivity(SpecificIsobaricHeatCapacity,DynamicViscosity,PrandtlNumber)", [](const Q* const* a) { return A(0) * A(1) / A(2); });
+  S("SpecificIsobaricHeatCapacity(PrandtlNumber,ScalarThermalConductivity,DynamicViscosity)", [](const Q* const* a) { return A(0) * A(1) / A(2); });
+  S("HeatCapacityRatio(IsobaricHeatCapacity,IsochoricHeatCapacity)", [](const Q* const* a) { return A(0) / A(1); });
+  S("HeatCapacityRatio(SpecificIsobaricHeatCapacity,SpecificIsochoricHeatCapacity)", [](const Q* const* a) { return A(0) / A(1); });
+  S("IsobaricHeatCapacity / IsochoricHeatCapacity", [](const Q* const* a) { return A(0) / A(1); }); S("SpecificIsobaricHeatCapacity / SpecificIsochoricHeatCapacity", [](const Q* const* a) { return A(0) / A(1); });
+  Sum("GasConstant(IsobaricHeatCapacity,IsochoricHeatCapacity)", -1); Sum("SpecificGasConstant(SpecificIsobaricHeatCapacity,SpecificIsochoricHeatCapacity)", -1);
+  Sum("IsobaricHeatCapacity - IsochoricHeatCapacity", -1); Sum("SpecificIsobaricHeatCapacity - SpecificIsochoricHeatCapacity", -1);
+  // gamma = cp/(cp - R) = (R + cv)/cv ;  R = cp (gamma - 1)/gamma = cv (gamma - 1): inner differences amplify the rounding of the operands
+  auto Amp = [&](const char* n, std::function<Q(const Q* const*)> f, std::function<Q(const Q* const*)> amp) { d.push_back({n, [f, amp](const Q* const* a, Q* out, Q* mag) { out[0] = f(a); mag[0] = fabsq(out[0]) * amp(a); }}); };
+  for (const char* n : {"HeatCapacityRatio(IsobaricHeatCapacity,GasConstant)", "HeatCapacityRatio(SpecificIsobaricHeatCapacity,SpecificGasConstant)"})
+    Amp(n, [](const Q* const* a) { return A(0) / (A(0) - A(1)); }, [](const Q* const* a) { return (fabsq(A(0)) + fabsq(A(1))) / fabsq(A(0) - A(1)); });
+  for (const char* n : {"HeatCapacityRatio(GasConstant,IsochoricHeatCapacity)", "HeatCapacityRatio(SpecificGasConstant,SpecificIsochoricHeatCapacity)"})
+    Amp(n, [](const Q* const* a) { return (A(0) + A(1)) / A(1); }, [](const Q* const*) { return (Q)1; });
+  for (const char* n : {"GasConstant(HeatCapacityRatio,IsobaricHeatCapacity)", "SpecificGasConstant(HeatCapacityRatio,SpecificIsobaricHeatCapacity)"})
+    Amp(n, [](const Q* const* a) { return A(1) * (A(0) - 1) / A(0); }, [](const Q* const* a) { return (fabsq(A(0)) + 1) / fabsq(A(0) - 1); });
+  for (const char* n : {"GasConstant(HeatCapacityRatio,IsochoricHeatCapacity)", "SpecificGasConstant(HeatCapacityRatio,SpecificIsochoricHeatCapacity)"})
+    Amp(n, [](const Q* const* a) { return A(1) * (A(0) - 1); }, [](const Q* const* a) { return (fabsq(A(0)) + 1) / fabsq(A(0) - 1); });
+  S("ThermalDiffusivity(ScalarThermalConductivity,MassDensity,SpecificIsobaricHeatCapacity)", [](const Q* const* a) { return A(0) / (A(1) * A(2)); });
+  S("MassDensity(ScalarThermalConductivity,ThermalDiffusivity,SpecificIsobaricHeatCapacity)", [](const Q* const* a) { return A(0) / (A(1) * A(2)); });
+  S("ScalarThermalConductivity(MassDensity,SpecificIsobaricHeatCapacity,ThermalDiffusivity)", [](const Q* const* a) { return A(0) * A(1) * A(2); });
+  S("SpecificIsobaricHeatCapacity(ScalarThermalConductivity,MassDensity,ThermalDiffusivity)", [](const Q* const* a) { return A(0) / (A(1) * A(2)); });
+  S("KinematicViscosity(DynamicViscosity,MassDensity)", [](const Q* const* a) { return A(0) / A(1); }); S("MassDensity(DynamicViscosity,KinematicViscosity)", [](const Q* const* a) { return A(0) / A(1); });
+  S("DynamicViscosity / MassDensity", [](const Q* const* a) { return A(0) / A(1); });
+  S("Time(Frequency)", [](const Q* const* a) { return 1 / A(0); }); S("Frequency(Time)", [](const Q* const* a) { return 1 / A(0); }); S("Frequency.Period()", [](const Q* const* a) { return 1 / A(0); }); S("Time.Frequency()", [](const Q* const* a) { return 1 / A(0); });
+  S("ScalarStrain(LinearThermalExpansionCoefficient,TemperatureDifference)", [](const Q* const* a) { return A(0) * A(1); });
+#undef A
+  auto sym = [](const Q* const* a, Q* out, Q* mag) {
+    const Q* g = a[0]; static const int i1[6] = {0, 1, 2, 4, 5, 8}, i2[6] = {0, 3, 6, 4, 7, 8};
+    for (int k = 0; k < 6; k++) { out[k] = (g[i1[k]] + g[i2[k]]) / 2; mag[k] = (fabsq(g[i1[k]]) + fabsq(g[i2[k]])) / 2; }
+  };
+  for (const char* n : {"Strain(DisplacementGradient)", "StrainRate(VelocityGradient)", "DisplacementGradient.Strain()", "VelocityGradient.StrainRate()"}) d.push_back({n, sym});
+  d.push_back({"Strain(VolumetricThermalExpansionCoefficient,TemperatureDifference)", [](const Q* const* a, Q* out, Q* mag) { const Q v = a[0][0] * a[1][0] / 3; const Q o[6] = {v, 0, 0, v, 0, v}; for (int k = 0; k < 6; k++) { out[k] = o[k]; mag[k] = fabsq(o[k]); } }});
+  d.push_back({"Stress(StaticPressure)", [](const Q* const* a, Q* out, Q* mag) { const Q v = -a[0][0]; const Q o[6] = {v, 0, 0, v, 0, v}; for (int k = 0; k < 6; k++) { out[k] = o[k]; mag[k] = fabsq(o[k]); } }});
+  d.push_back({"Stress.VonMises()", [](const Q* const* a, Q* out, Q* mag) {
+                 const Q* s = a[0]; const Q xx = s[0], xy = s[1], xz = s[2], yy = s[3], yz = s[4], zz = s[5];
+                 const Q S2 = ((xx - yy) * (xx - yy) + (yy - zz) * (yy - zz) + (zz - xx) * (zz - xx)) / 2 + 3 * (xy * xy + xz * xz + yz * yz);
+                 auto ab = [](Q x) { return fabsq(x); };
+                 const Q Sabs = ((ab(xx) + ab(yy)) * (ab(xx) + ab(yy)) + (ab(yy) + ab(zz)) * (ab(yy) + ab(zz)) + (ab(zz) + ab(xx)) * (ab(zz) + ab(xx))) / 2 + 3 * (xy * xy + xz * xz + yz * yz);
+                 out[0] = sqrtq(S2); mag[0] = S2 > 0 ? Sabs / sqrtq(S2) : sqrtq(Sabs); }});
+  auto traction = [](const Q* const* a, Q* out, Q* mag) {
+    const Q* s = a[0]; const Q* n = a[1]; static const int m[3][3] = {{0, 1, 2}, {1, 3, 4}, {2, 4, 5}};
+    for (int i = 0; i < 3; i++) { out[i] = 0; mag[i] = 0; for (int j = 0; j < 3; j++) { out[i] += s[m[i][j]] * n[j]; mag[i] += fabsq(s[m[i][j]] * n[j]); } }
+  };
+  d.push_back({"Traction(Stress,Direction)", traction}); d.push_back({"Stress.Traction(Direction)", traction}); d.push_back({"Stress * Direction", traction});
+  return d;
+}
+static std::vector<Def> g_defs;
+struct DefInst { int nt; int def; int rel; };
+static std::vector<DefInst> g_definst;
+static std::vector<std::string> g_absent;
+static void find_defs() {
+  g_defs = make_defs();
+  for (size_t k = 0; k < g_defs.size(); k++) {
+    bool any = false;
+    for (int nt = 0; nt < 3; nt++) for (size_t i = 0; i < g_rel[nt].size(); i++) if (!std::strcmp(g_rel[nt][i]->name, g_defs[k].name)) { g_definst.push_back({nt, (int)k, (int)i}); any = true; }
+    if (!any) g_absent.push_back(g_defs[k].name);
+  }
+}
+static Verdict c18_def(const Case& c) {
+  const DefInst& I = g_definst[(size_t)c.i[0]]; const int nt = I.nt; const VfRelation* R = g_rel[nt][(size_t)I.rel];
+  Eval E; load_operands(R, c, E); E.run(R);
+  Q args[9][9]; const Q* ap[9]; for (int k = 0; k < R->nargs; k++) { for (int j = 0; j < 9; j++) args[k][j] = E.st[k][j]; ap[k] = args[k]; }
+  Q ref[9], mag[9]; for (int j = 0; j < 9; j++) { ref[j] = 0; mag[j] = 0; }
+  g_defs[(size_t)I.def].ref(ap, ref, mag);
+  for (int j = 0; j < R->res.ncomp; j++) if (!finiteq(ref[j])) return Verdict::skip("reference-not-finite");
+  for (int j = 0; j < R->res.ncomp; j++) {
+    if (mag[j] == 0) { if (E.out[j] != 0) return Verdict::fail(fmt("%s [%s]: component %d is %s, the definition gives 0 (operands %s)", R->name, ntinfo(nt).name, j, decld(E.out[j]).c_str(), show_args(R, E).c_str())); continue; }
+    if (fabsq(mag[j]) < ldexpq(1, ntinfo(nt).emin + 4) || fabsq(mag[j]) > ldexpq(1, ntinfo(nt).emax - 4)) return Verdict::skip("out-of-normal-range");
+    const double e = err_ulps(nt, E.out[j], ref[j], mag[j]);
+    if (!(e <= 4.0)) return Verdict::fail(fmt("%s [%s]: component %d is %s, the textbook formula gives %s (%.4g ulp, allowed 4); operands %s", R->name, ntinfo(nt).name, j, decld(E.out[j]).c_str(), qstr(ref[j]).c_str(), e, show_args(R, E).c_str()));
+  }
+  Verdict V; V.cls = ntinfo(nt).name; V.nontrivial = true; for (int k = 0; k < R->nargs; k++) if (R->args[k].ncomp == 1 && (E.st[k][0] == 1 || E.st[k][0] == 0)) V.nontrivial = false;
+  V.show = fmt("%s [%s] %s -> %s", R->name, ntinfo(nt).name, show_args(R, E).c_str(), comps_dec(E.out, R->res.ncomp).c_str());
+  return V;
+}
+
 // ================================================================================================
 int main(int argc, char** argv) {
   load();
@@ -613,7 +731,7 @@ int main(int argc, char** argv) {
   }
   for (int nt = 0; nt < 3; nt++) for (size_t i = 0; i < g_cmp[nt].size(); i++) g_cmpall.push_back({nt, (int)i});
   for (int nt = 0; nt < 3; nt++) for (size_t i = 0; i < g_std[nt].size(); i++) g_stdall.push_back({nt, (int)i});
-  find_twins(); find_pairs(); find_c10();
+  find_twins(); find_pairs(); find_c10(); find_defs();
   if (argc > 1 && std::string(argv[1]) == "inventory") {
     std::map<int, int> kinds; for (auto* r : g_rel[1]) kinds[r->kind]++;
     for (auto& kv : kinds) std::printf("kind %d: %d\n", kv.first, kv.second);
@@ -712,6 +830,17 @@ int main(int argc, char** argv) {
              "b = +-k a + 2^-e a_perp (e = 1..60), perpendicular and independent pairs, lengths over the non-overflowing range; oracle: not NaN, in [0, pi], bit-symmetric, bit-invariant under power-of-two rescaling of either argument, "
              "|theta - atan2(|a x b|, a.b)| <= 6 sqrt(eps) in __float128; non-trivial: |cos theta| > 1 - 2^10 eps";
     subs.push_back(s);
+  }
+  {
+    Sub s; s.name = "c18.definitions"; s.property = "C18"; s.instances = (int)g_definst.size(); s.n_quick = 200; s.n_thorough = 20000; s.run = c18_def;
+    s.gen = [](int inst) { const DefInst& I = g_definst[(size_t)inst]; const VfRelation* R = g_rel[I.nt][(size_t)I.rel]; const int n = total_comps(R), nt = I.nt; const int w = nt == 0 ? 10 : 30;
+      return rc::gen::map(gen_reals(n, nt, -w, w, kNeg), [=](const std::vector<LD>& v) { Case c; c.i = {inst}; c.r = v; size_t p = 0; for (int a = 0; a < R->nargs; a++) for (int j = 0; j < R->args[a].ncomp; j++, p++) if (R->args[a].ncomp == 1) c.r[p] = std::fabs(c.r[p]); return c; }); };
+    s.instance_name = [](int inst) { const DefInst& I = g_definst[(size_t)inst]; return std::string(g_defs[(size_t)I.def].name) + "/" + ntinfo(I.nt).name; };
+    s.rule = "a fixed table of textbook definitions (q = rho v^2/2 and its inverses, v^2/2, total = static + dynamic pressure in all arrangements, a = sqrt(K/rho) = sqrt(gamma p/rho) = sqrt(gamma R T), Ma, Re and Pr in every solved form, "
+             "gamma = cp/cv, R = cp - cv (extensive and specific), alpha = k/(rho cp), nu = mu/rho, T = 1/f, sym(grad u), sym(grad v), alpha dT, (beta dT/3) I, von Mises, sigma.n, -p I), each looked up by name in the relation registry "
+             "(absent rows are listed, not failed); positive finite scalar operands over +-30 binades (tensors: both signs); oracle: __float128 formula within 4 ulp (sums: of the sum of |terms|); non-trivial: no operand is 0 or 1";
+    subs.push_back(s);
+    for (auto& a : g_absent) ev().notes.push_back("c18: relation not present in this tree: " + a);
   }
   return engine_main(argc, argv, subs);
 }
